@@ -334,6 +334,119 @@ def run_family_c20(name, cfgs, rand_cfg, binaries, seed, tier, tlc_workers=3, ra
     return res
 
 
+def thr_mc(wd, name, cfg, keep_obs, export):
+    """MC module for a threaded scenario.  export=True: wrapper spec recording the schedule (sequence of
+    thread ids, one per access step) for replay on the hooked code"""
+    nthr = len(cfg["thr"])
+    if export:
+        extra = '''
+VARIABLE sch
+MCInit == Init /\\ sch = <<>>
+MCNext == Next /\\ sch' = IF \\E t \\in 1..NThr : Mover(t) /\\ AccessStep(t)
+                          THEN Append(sch, CHOOSE t \\in 1..NThr : Mover(t) /\\ AccessStep(t)) ELSE sch
+MCSpec == MCInit /\\ [][MCNext]_<<vars, sch>>
+Beh == Finished => PrintT(<<"BEH", ToJson([sch |-> sch, obs |-> obs, panicked |-> panicked])>>)
+'''
+        tlc.write_mc(wd, name, [cfg], invariants=["Beh"], extra_defs=extra, keep_obs=True,
+                     extends=("Callbag", "CallbagProps"), print_beh=False, nthr=nthr, spec="MCSpec",
+                     action_constraint="Eager")
+    else:
+        tlc.write_mc(wd, name, [cfg], invariants=["NoPanic", "ThrMonOK"], keep_obs=keep_obs,
+                     extends=("Callbag", "CallbagProps"), print_beh=False, nthr=nthr, action_constraint="Eager")
+
+
+def run_family_thr(prop, name, cfg, binary, seed, tier, tlc_workers=4):
+    """threaded scenario (C18/C19): exhaustive TLC on the model with monitors; TLC-simulated schedules
+    replayed on the hooked code and compared; preemption-bounded enumeration and random schedules on the
+    code; every recorded trace judged by the TLA+ predicate"""
+    q = tier == "quick"
+    wd = os.path.join(WORK, f"{prop}_{name}")
+    shutil.rmtree(wd, ignore_errors=True)
+    os.makedirs(wd)
+    res = dict(name=name, fam=cfg["fam"], scenarios=1)
+    t0 = time.time()
+    # (1) all interleavings of the model at access granularity, monitors instead of histories
+    mc = "MC_" + name
+    thr_mc(wd, mc, cfg, keep_obs=False, export=False)
+    rc, out, dt = tlc.run_tlc(wd, mc, workers=tlc_workers, timeout=3000)
+    gen, dist, depth = tlc.parse_stats(out)
+    res.update(tlc_s=dt, states=dist, transitions=gen, depth=depth)
+    res["model_ok"] = tlc.tlc_ok(rc, out)
+    if not res["model_ok"]:
+        if "is violated" not in out:
+            raise ToolError(f"TLC failed on threaded model {name}:\n" + tlc.error_excerpt(out, 60))
+        res["model_violation"] = tlc.error_excerpt(out, 12)
+    # (2) simulated behaviours with their schedules, for replay on the code
+    mcs = "MCS_" + name
+    thr_mc(wd, mcs, cfg, keep_obs=True, export=True)
+    nsim = 150 if q else 1500
+    rc, out, dt2 = tlc.run_tlc(wd, mcs, workers=1, timeout=1200,
+                               extra_args=["-simulate", f"num={nsim}", "-depth", "400", "-seed", str(seed)])
+    sims = {}
+    for b in tlc.parse_tagged(out, "BEH"):
+        sims[json.dumps(b["sch"])] = b
+    sims = list(sims.values())
+    res["behaviours"] = len(sims)
+    res["sim_s"] = dt2
+    # (3) the real code under the scheduler hook
+    scen_file = os.path.join(wd, "scen.ndjson")
+    with open(scen_file, "w") as f:
+        f.write(json.dumps({"id": f"{name}.s", "fam": cfg["fam"], "cfg": cfg, "drive": "threads",
+                            "scheds": [b["sch"] for b in sims]}) + "\n")
+        f.write(json.dumps({"id": f"{name}.x", "fam": cfg["fam"], "cfg": cfg, "drive": "threads",
+                            "enumerate": {"preempt": 2 if q else 3, "limit": 4000 if q else 60000},
+                            "rand": {"count": 300 if q else 5000, "seed": seed}}) + "\n")
+    tr_file = os.path.join(wd, "traces.ndjson")
+    th = time.time()
+    run_harness(binary, scen_file, tr_file)
+    res["harness_s"] = time.time() - th
+    drift = []
+    replayed = enum_n = rand_n = 0
+    keys = {}
+    jf = os.path.join(wd, "judge.ndjson")
+    ck = json.dumps(cfg, sort_keys=True)
+    ntraces = 0
+    hooks = True
+    with open(tr_file) as f, open(jf, "w") as jout:
+        for line in f:
+            r = json.loads(line)
+            if r.get("truncated"):
+                res["enum_truncated"] = True
+                continue
+            ntraces += 1
+            hooks = hooks and r.get("hooks", False)
+            rid = str(r["id"])
+            if rid.startswith(name + ".s.s"):
+                replayed += 1
+                b = sims[int(rid.split(".s.s")[-1])]
+                if r["obs"] != b["obs"] or r["sched"] != b["sch"]:
+                    drift.append(dict(kind="schedule_replay_differs", id=rid, sched=b["sch"]))
+            elif ".e" in rid:
+                enum_n += 1
+            else:
+                rand_n += 1
+            k = obs_key(ck, r["obs"])
+            if k not in keys:
+                keys[k] = r
+                jout.write(json.dumps({"id": k, "cfg": r["cfg"], "obs": r["obs"]}) + "\n")
+    viol, st, jdt = tlc.judge(wd, jf, prop, workers=tlc_workers, tag=name)
+    res["judge_s"] = jdt
+    hits = []
+    for v in viol:
+        r = keys[v["id"]]
+        hits.append(dict(id=r["id"], cfg=r["cfg"], script=[], sched=r["sched"], obs=r["obs"], w=v["w"]))
+    mid = list(keys.values())[len(keys) // 2] if keys else None
+    res.update(replayed=replayed, dfs=enum_n, rand=rand_n, drift=len(drift), drift_samples=drift[:3],
+               dfs_equals_model=False, impl_traces=ntraces, distinct_impl_traces=len(keys), hits=hits,
+               judged_by_traceprops=len(keys), judged_as_model_behaviour=0, model_behaviours_with_witnesses=0,
+               hooks_compiled=hooks,
+               sample=dict(sched=mid["sched"], obs=[e for e in mid["obs"] if e["k"] != "r"][:40]) if mid else None)
+    res["wall_s"] = time.time() - t0
+    if not os.environ.get("VERIF_KEEP_WORK"):
+        shutil.rmtree(wd, ignore_errors=True)
+    return res
+
+
 def run_families(prop, fams, binary, seed, tier, jobs=5, rand_count=200, env_extra=None, twosub=False):
     results = []
     with cf.ThreadPoolExecutor(max_workers=jobs) as ex:
@@ -364,7 +477,7 @@ def classify(prop, results, findings):
                     known[f["id"]] = known.get(f["id"], 0) + 1
             if unw:
                 violations.append(dict(family=r["name"], id=h["id"], cfg=h["cfg"], script=h["script"],
-                                       obs=h["obs"], witnesses=unw))
+                                       sched=h.get("sched"), obs=h["obs"], witnesses=unw))
     return violations, known
 
 
@@ -373,9 +486,12 @@ def write_replay(prop, v, idx):
     os.makedirs(d, exist_ok=True)
     path = os.path.join(d, f"{prop}_{idx}.json")
     with open(path, "w") as f:
-        json.dump(dict(property=prop, scenario=dict(id="replay", fam=v["cfg"]["fam"], cfg=v["cfg"],
-                                                    drive="replay", script=v["script"]),
-                       obs=v["obs"], witnesses=v["witnesses"]), f, indent=1)
+        scn = dict(id="replay", fam=v["cfg"]["fam"], cfg=v["cfg"], drive="replay", script=v["script"])
+        if v.get("sched") is not None:
+            scn = dict(id="replay", fam=v["cfg"]["fam"], cfg=v["cfg"], drive="threads", scheds=[v["sched"]])
+        if v.get("twosub"):
+            scn["twosub"] = True
+        json.dump(dict(property=prop, scenario=scn, obs=v["obs"], witnesses=v["witnesses"]), f, indent=1)
     return path
 
 
